@@ -172,74 +172,74 @@ Proof.
   intros sigT recover s from to x s' N R H. unfold migrate_tx, validate_basic. rewrite N, R, Z.eqb_refl. exact H.
 Qed.
 
-Theorem gov_block_refuted :
-  wf ex_gov /\ now ex_gov = 10 /\
+Definition sig_any : Z -> Z -> unit -> option Z := fun _ to _ => Some to.
+
+(* the governance clause on a concrete history: all three participants are refused *)
+Theorem gov_block_example :
+  wf ex_gov /\ govwfb ex_gov = true /\ now ex_gov = 10 /\
   (involved_open ex_gov 1 /\ involved_open ex_gov 2 /\ involved_open ex_gov 3) /\
-  forall sigT (recover : Z -> Z -> sigT -> option Z),
-    (forall x, recover 1 5 x = Some 5 -> exists s', migrate_tx sigT recover ex_gov 1 5 (Some x) = Ok s') /\
-    (forall x, recover 2 6 x = Some 6 -> exists s', migrate_tx sigT recover ex_gov 2 6 (Some x) = Ok s') /\
-    (forall x, recover 3 7 x = Some 7 -> exists s', migrate_tx sigT recover ex_gov 3 7 (Some x) = Ok s').
+  migrate_tx unit sig_any ex_gov 1 5 (Some tt) = Err EGov /\
+  migrate_tx unit sig_any ex_gov 2 6 (Some tt) = Err EGov /\
+  migrate_tx unit sig_any ex_gov 3 7 (Some tt) = Err EGov /\
+  migrate_tx unit sig_any ex_gov 6 7 (Some tt) = Err EAccount.
 Proof.
-  split; [vm_compute; reflexivity|]. split; [vm_compute; reflexivity|]. split.
+  split; [vm_compute; reflexivity|]. split; [vm_compute; reflexivity|]. split; [vm_compute; reflexivity|]. split.
   - repeat split.
     + exists 1. eexists. split; [vm_compute; reflexivity|]. split; vm_compute; reflexivity.
     + exists 2. eexists. split; [vm_compute; reflexivity|]. split; vm_compute; reflexivity.
     + exists 2. eexists. split; [vm_compute; reflexivity|]. split; vm_compute; reflexivity.
-  - intros sigT recover. repeat split; intros x R.
-    + destruct (migrate_account ex_gov 1 5) as [s'| |] eqn:E; [|vm_compute in E; discriminate ..].
-      exists s'. apply accept_by_server; [reflexivity | exact R | exact E].
-    + destruct (migrate_account ex_gov 2 6) as [s'| |] eqn:E; [|vm_compute in E; discriminate ..].
-      exists s'. apply accept_by_server; [reflexivity | exact R | exact E].
-    + destruct (migrate_account ex_gov 3 7) as [s'| |] eqn:E; [|vm_compute in E; discriminate ..].
-      exists s'. apply accept_by_server; [reflexivity | exact R | exact E].
+  - repeat split; vm_compute; reflexivity.
 Qed.
 
-(* the consequence: when proposal 1 expires, its deposit is refunded to the emptied, already migrated source *)
-Definition sig_any : Z -> Z -> unit -> option Z := fun _ to _ => Some to.
-Definition ex_refill_ops : list (op unit) :=
-  ex_gov_ops ++ [OMigrate unit 1 5 (Some tt); OEndBlock unit 1100 1105 []].
+(* ---- BEFORE commit f80617f (finding C14-1, fixed): the scan stopped at the block time.  This is a
+   statement about the OLD validation function, kept as a regression witness; it is not the model. ---- *)
+Fixpoint walk_until (t : time) (cb : Z -> outcome unit) (q : list (time * Z)) : outcome unit :=
+  match q with
+  | [] => Ok tt
+  | (te, pid) :: r => if te <=? t then bind (cb pid) (fun _ => walk_until t cb r) else walk_until t cb r
+  end.
+Definition prefix_gov_validate (from to : addr) (s : state) : outcome unit :=
+  bind (walk_until (now s) (dep_cb (gov s) from to) (inactiveq (gov s))) (fun _ =>
+  walk_until (now s) (vote_cb (gov s) from to) (activeq (gov s))).
 
-Theorem source_refilled :
-  let s := run unit sig_any ex_init (ex_gov_ops ++ [OMigrate unit 1 5 (Some tt)]) in
-  let s' := run unit sig_any ex_init ex_refill_ops in
-  has_record s 1 = true /\ (forall d, bal_of s 1 d = 0) /\
-  has_record s' 1 = true /\ bal_of s' 1 0 = 1000.
+Lemma walk_until_future : forall t cb q, (forall te pid, In (te, pid) q -> t < te) -> walk_until t cb q = Ok tt.
 Proof.
-  cbv zeta. split; [vm_compute; reflexivity|]. split.
-  - intros d. unfold bal_of. rewrite (existsb_from2_false 1 _) by (vm_compute; reflexivity). reflexivity.
-  - split; vm_compute; reflexivity.
+  intros t cb q. induction q as [|[te pid] r IH]; intros H; [reflexivity|]. cbn.
+  replace (te <=? t) with false by (symmetry; apply Z.leb_gt; apply (H te pid); left; reflexivity).
+  apply IH. intros te' pid' I. apply (H te' pid'). right. exact I.
 Qed.
 
-(* a queued proposal whose end time has been reached IS seen: the guarded statement is not vacuous *)
-Theorem gov_guard_nonvacuous :
-  let s := run unit sig_any ex_init [OSubmit unit 1 1000; OEndBlock unit 1005 1010 []] in
-  seen_inactive s 1 5 /\ migrate_tx unit sig_any s 1 5 (Some tt) = Err EGov.
+Theorem prefix_scan_was_blind : forall s from to,
+  (forall te pid, In (te, pid) (inactiveq (gov s)) -> now s < te) ->
+  (forall te pid, In (te, pid) (activeq (gov s)) -> now s < te) ->
+  prefix_gov_validate from to s = Ok tt.
 Proof.
-  cbv zeta. split.
-  - exists 1010, 1. eexists. split; [vm_compute; left; reflexivity|]. split; [vm_compute; discriminate|].
-    split; vm_compute; reflexivity.
-  - vm_compute. reflexivity.
+  intros s from to H1 H2. unfold prefix_gov_validate. rewrite walk_until_future by exact H1. cbn.
+  apply walk_until_future. exact H2.
 Qed.
 
-(* stale indexes, concretely *)
+Theorem prefix_scan_example :
+  prefix_gov_validate 1 5 ex_gov = Ok tt /\ gov_validate 1 5 ex_gov = Err EGov.
+Proof. split; vm_compute; reflexivity. Qed.
+
+(* indexes, concretely: all five exact before and after *)
 Definition ex_after : state := run unit sig_any ex_init [OMigrate unit 1 5 (Some tt)].
 
-Theorem index_refuted :
+Theorem index_example :
   wf ex_init /\ qcoverb ex_init = true /\
   idx71_ok ex_init /\ idx33_ok ex_init /\ idx38b ex_init = true /\
   migrate_tx unit sig_any ex_init 1 5 (Some tt) = Ok ex_after /\
-  ~ idx71_ok ex_after /\ idx33_ok ex_after /\ idx38b ex_after = false /\
-  in71 ex_after 1 13 = true /\ del_of ex_after 1 13 = None /\ in71 ex_after 5 13 = false /\ del_of ex_after 5 13 <> None /\
-  sget Z.eqb 1 (unbidx (stake ex_after)) = Some (UKubd 1 13) /\ ubd_of ex_after 1 13 = None.
+  idx71_ok ex_after /\ idx33_ok ex_after /\ idx38b ex_after = true /\
+  in71 ex_after 1 13 = false /\ in71 ex_after 5 13 = true /\
+  sget Z.eqb 1 (unbidx (stake ex_after)) = Some (UKubd 5 13) /\ sget Z.eqb 2 (unbidx (stake ex_after)) = Some (UKubd 9 13).
 Proof.
   split; [vm_compute; reflexivity|]. split; [vm_compute; reflexivity|].
   split; [apply (matchb_ok k2_eqb k2_eqb_ok); vm_compute; reflexivity|].
   split; [apply (matchb_ok k2_eqb k2_eqb_ok); vm_compute; reflexivity|].
   split; [vm_compute; reflexivity|]. split; [vm_compute; reflexivity|].
-  split.
-  - intros H. specialize (H (1, 13)). vm_compute in H. discriminate.
-  - split; [apply (matchb_ok k2_eqb k2_eqb_ok); vm_compute; reflexivity|].
-    repeat split; try (vm_compute; reflexivity). vm_compute. discriminate.
+  split; [apply (matchb_ok k2_eqb k2_eqb_ok); vm_compute; reflexivity|].
+  split; [apply (matchb_ok k2_eqb k2_eqb_ok); vm_compute; reflexivity|].
+  repeat split; vm_compute; reflexivity.
 Qed.
 
 (* the portfolio theorem is about something: the example's source holds two denominations, a delegation with
